@@ -4,9 +4,11 @@
 EXTENDS HumanText
 CONSTANTS Big,          \* larger bounds (thorough)
           AllowEmpty    \* include blocks with zero instances (Variable blocks may be empty on the wire)
-Var(n, ser, pretty, inline, k) == [n |-> n, ser |-> ser, pretty |-> pretty, inline |-> inline, k |-> k]
+Var(n, ser, pretty, inline, k) == [n |-> n, ser |-> ser, pretty |-> pretty, inline |-> inline, k |-> k, vk |-> "lit", pvk |-> "lit"]
+Special(v) == [v EXCEPT !.vk = "special"]
 \* first variable of an instance: every printing case, 1..3 physical lines
-V1 == {Var("x", FALSE, "ok", FALSE, 1), Var("x", FALSE, "ok", FALSE, 3),
+V1 == {Var("x", FALSE, "ok", FALSE, 1), Var("x", FALSE, "ok", FALSE, 3), Special(Var("x", FALSE, "ok", FALSE, 1)),
+       Special(Var("x", TRUE, "ok", TRUE, 1)),
        Var("x", TRUE, "ok", TRUE, 1), Var("x", TRUE, "ok", TRUE, 2),
        Var("x", TRUE, "ok", FALSE, 1), Var("x", TRUE, "ok", FALSE, 2),
        Var("x", TRUE, "unser", FALSE, 1), Var("x", TRUE, "raise", TRUE, 1)}
@@ -19,6 +21,8 @@ ListsB == (IF AllowEmpty THEN {<<>>} ELSE {}) \cup {<<i>> : i \in InstsB}
 MCMsgs == {[ncom |-> c, blocks |-> <<[name |-> "A", inst |-> a]>>] : c \in {0, 1}, a \in ListsA}
           \cup {[ncom |-> 1, blocks |-> <<[name |-> "A", inst |-> a], [name |-> "B", inst |-> b]>>] : a \in ListsA, b \in ListsB}
 MCAlphabet == {CommentTok, Tok("block", "A", FALSE, FALSE, FALSE), Tok("other", "", FALSE, FALSE, FALSE), Tok("other", "", FALSE, FALSE, TRUE),
-               Tok("assign", "x", FALSE, FALSE, FALSE), Tok("assign", "x", FALSE, FALSE, TRUE), Tok("assign", "x", TRUE, FALSE, FALSE),
-               Tok("assign", "x", FALSE, TRUE, FALSE), Tok("assign", "x", FALSE, TRUE, TRUE), Tok("assign", "x", TRUE, TRUE, FALSE)}
+               ATok("x", FALSE, FALSE, FALSE, "lit"), ATok("x", FALSE, FALSE, TRUE, "lit"), ATok("x", TRUE, FALSE, FALSE, "lit"),
+               ATok("x", FALSE, FALSE, FALSE, "special"), ATok("x", TRUE, FALSE, FALSE, "special"),
+               ATok("x", FALSE, FALSE, FALSE, "expr"), ATok("x", TRUE, FALSE, FALSE, "expr"), ATok("x", TRUE, FALSE, TRUE, "junk"),
+               ATok("x", FALSE, TRUE, FALSE, "expr"), ATok("x", FALSE, TRUE, TRUE, "expr"), ATok("x", TRUE, TRUE, FALSE, "lit")}
 ====
